@@ -17,7 +17,102 @@ use std::sync::{Arc, Mutex as StdMutex};
 use vsched::rt;
 use vsched::thread as vthread;
 
-pub use vsched::executor::block_on;
+/// `inl`=1 (any scenario): every task the harness awaits is run by a *run-on-wake executor*: its waker polls the task on the
+/// spot, on whatever thread delivers the wake-up, under the task's own lock (which the awaiting thread also holds while it
+/// polls).  Legal and not even rare (an executor built on a Desync works like this); it punishes library code that calls
+/// a user's waker while holding one of its own locks.
+static INLINE_WAKERS: std::sync::atomic::AtomicBool = std::sync::atomic::AtomicBool::new(false);
+
+pub fn set_inline_wakers(on: bool) {
+    INLINE_WAKERS.store(on, AO::SeqCst);
+}
+
+pub fn block_on<F: Future + Send>(f: F) -> F::Output
+where
+    F::Output: Send,
+{
+    if INLINE_WAKERS.load(AO::SeqCst) {
+        inline_block_on(f)
+    } else {
+        vsched::executor::block_on(f)
+    }
+}
+
+struct InlineTask {
+    /// the task lock: held while the task is polled, by the awaiting thread and by every waker alike
+    fut: vsched::sync::Mutex<Option<Pin<Box<dyn Future<Output = ()> + Send + 'static>>>>,
+    /// the virtual thread that is polling right now (a wake-up from inside the poll asks for another poll instead)
+    polling: StdMutex<Option<usize>>,
+    repoll: std::sync::atomic::AtomicBool,
+    done: BGate,
+}
+
+impl futures::task::ArcWake for InlineTask {
+    fn wake_by_ref(a: &Arc<Self>) {
+        InlineTask::poll_now(a);
+    }
+}
+
+impl InlineTask {
+    fn poll_now(a: &Arc<Self>) {
+        let me = vthread::current().id();
+        if *a.polling.lock().unwrap() == Some(me) {
+            a.repoll.store(true, AO::SeqCst);
+            return;
+        }
+        let mut finished = false;
+        {
+            let mut g = match a.fut.lock() {
+                Ok(g) => g,
+                Err(_) => return,
+            };
+            *a.polling.lock().unwrap() = Some(me);
+            loop {
+                a.repoll.store(false, AO::SeqCst);
+                let ready = match g.as_mut() {
+                    None => break,
+                    Some(f) => {
+                        let w = futures::task::waker(a.clone());
+                        let mut cx = Context::from_waker(&w);
+                        f.as_mut().poll(&mut cx).is_ready()
+                    }
+                };
+                if ready {
+                    *g = None;
+                    finished = true;
+                    break;
+                }
+                if !a.repoll.load(AO::SeqCst) {
+                    break;
+                }
+            }
+            *a.polling.lock().unwrap() = None;
+        }
+        if finished {
+            a.done.open();
+        }
+    }
+}
+
+pub fn inline_block_on<F: Future + Send>(f: F) -> F::Output
+where
+    F::Output: Send,
+{
+    let slot: Arc<StdMutex<Option<F::Output>>> = Arc::new(StdMutex::new(None));
+    let slot2 = slot.clone();
+    let wrapped = async move {
+        let v = f.await;
+        *slot2.lock().unwrap() = Some(v);
+    };
+    let boxed: Pin<Box<dyn Future<Output = ()> + Send + '_>> = Box::pin(wrapped);
+    // (the future is destroyed, inside `poll_now`, before this function returns: wakers that outlive it find `None`)
+    let boxed: Pin<Box<dyn Future<Output = ()> + Send + 'static>> = unsafe { std::mem::transmute(boxed) };
+    let task = Arc::new(InlineTask { fut: vsched::sync::Mutex::new(Some(boxed)), polling: StdMutex::new(None), repoll: std::sync::atomic::AtomicBool::new(false), done: BGate::new() });
+    InlineTask::poll_now(&task);
+    task.done.wait();
+    let v = slot.lock().unwrap().take();
+    v.expect("inline task finished without a result")
+}
 
 pub const POOL_NAME: &str = "desync jobs thread";
 
@@ -49,6 +144,7 @@ impl Cfg {
 }
 
 pub fn setup(pool: usize) {
+    set_inline_wakers(false);
     scheduler().verif_set_max_threads(pool);
     rt::set_census_limit(POOL_NAME, pool);
 }
@@ -886,6 +982,7 @@ impl World {
     /// pool threads at some later, explored, moment.  Every property tolerates a pool that is busy for a while, so this is a
     /// legal environment for every scenario.
     pub fn prelude(self: &Arc<Self>, cfg: &Cfg) {
+        set_inline_wakers(cfg.opt("inl", 0) == 1);
         if cfg.opt("sw", 0) == 1 {
             self.sw_pool.store(cfg.pool(), AO::SeqCst);
             self.sw.store(true, AO::SeqCst);
